@@ -426,16 +426,18 @@ def workerCancelled (p : Pool) (t : Nat) (tk : PTask) : Pool :=
   let p := (p.logEv (.sawCancel t)).modTask t fun k => { k with sawCancel := true, phase := .wrapUp, nSaw := k.nSaw + 1 }
   if (p.reqOf tk).wspec.swallow then p.afterWorker t none else p.taskCancellation t tk
 
-/-- the future the worker awaited completed normally and the worker has a further suspension point: it awaits a fresh
-future. For the pool the task is running as before (its wrapper has seen nothing) -/
-def workerNext (p : Pool) (t : Nat) : Pool :=
-  ((p.logEv (.next t)).modTask t fun k => { k with awaitsLeft := k.awaitsLeft - 1 }).suspendTask t .inWorker
+/-- the future the worker awaited completed normally and the worker has a further suspension point: it runs on — the
+user code between the two awaits may call the pool (`hooks.next`) — and awaits a fresh future. For the pool the task is
+running as before (its wrapper has seen nothing) -/
+def workerNext (p : Pool) (t : Nat) (tk : PTask) : Pool :=
+  (((p.logEv (.next t)).modTask t fun k => { k with awaitsLeft := k.awaitsLeft - 1 }).runHooks tk.req
+    (p.reqOf tk).hooks.next).suspendTask t .inWorker
 
 def stepInWorker (p : Pool) (t : Nat) (tk : PTask) : Pool :=
   if tk.fut == .cancelled || tk.mustCancel then
     (p.modTask t fun k => { k with mustCancel := false }).workerCancelled t tk
   else match tk.fut with
-    | .ok => if tk.awaitsLeft > 0 then p.workerNext t else p.afterWorker t none
+    | .ok => if tk.awaitsLeft > 0 then p.workerNext t tk else p.afterWorker t none
     | .exc e => p.afterWorker t (some e)
     | _ => p
 
